@@ -47,7 +47,8 @@ def model_summary(model, ob: Obligation, limit: int = 60) -> Dict[str, str]:
     return out
 
 
-STAGE2_BUDGET_MS = int(os.environ.get("VERIF_STAGE2_BUDGET_MS", "25000"))
+STAGE2_BUDGET_MS = int(os.environ.get("VERIF_STAGE2_BUDGET_MS", "25000"))  # (kept for reference; no longer used)
+STAGE2_BUDGET_RL = int(os.environ.get("VERIF_STAGE2_BUDGET_RL", "120000000"))
 
 
 def _record(ob: Obligation, verdict, model, stats, want_smt2=False) -> Dict:
@@ -115,12 +116,13 @@ def discharge_batch(obls: List[Obligation], idxs: List[int], want_smt2: bool = F
     todo.sort(key=lambda i: (len(obls[i].hyps), i))
     spent = 0
     for i in todo:
-        if spent > STAGE2_BUDGET_MS:
+        if spent > STAGE2_BUDGET_RL:
             break
         ob = obls[i]
         verdict, model, stats = quant.check(ob.hyps, ob.goal, TIMEOUT_MS, allow_stage2=True, skip_stage1=True)
         stats["ms"] = stats.get("ms", 0) + out[i]["ms"]
-        spent += stats["ms"]
+        # the per-shard budget of the second pass is counted in z3 resource units (deterministic), not in wall-clock time
+        spent += stats.get("rlimit_used") or 5000000
         out[i] = _record(ob, verdict, model, stats, want_smt2)
     return [(i, out[i]) for i in idxs]
 
